@@ -33,6 +33,21 @@ def _roles(c: tuple) -> dict:
     return roles
 
 
+def _regions(c):
+    """(what is posted for every box, what is posted for a branch only), whichever way 'this box is not the trunk' is tested:
+    a conditional holding the attachment, or an early return for the trunk followed by the attachment"""
+    he = ("a", SM, "heuleencoding")
+    for i, st in enumerate(c):
+        if st[0] != "if":
+            continue
+        if contains(st[2], he) or contains(st[3], he):
+            arm, other = (st[2], st[3]) if contains(st[2], he) else (st[3], st[2])
+            return tuple(c[:i]) + tuple(other), tuple(arm)
+        if st[3] == () and st[2] and st[2][-1][0] == "ret" and contains(tuple(c[i + 1:]), he):
+            return tuple(c[:i]) + tuple(st[2][:-1]), tuple(c[i + 1:])
+    return tuple(c), ()
+
+
 class _Idx(Sigma):
     """involution that also permutes the box-tuple positions input_problem[b][k]"""
     def __init__(self, perm: dict, **kw):
@@ -85,7 +100,7 @@ def r2(ctx: Ctx) -> None:
     roles = _roles(c)
     ctx.require(all(k in roles for k in ("x_", "X_", "y_", "Y_", "cell")), f"enforce_bb: interval dictionaries not identified by role: {sorted(roles)}")
     lx, bx, ly, by = roles["x_"], roles["X_"], roles["y_"], roles["Y_"]
-    first = [st for st in c if st[0] == "for"]
+    first = [st for st in _regions(c)[0] if st[0] == "for"]
     ctx.require(len(first) >= 6, "enforce_bb: expected six top-level loops before the trunk attachment")
     # loop variables of the x loop / y loop are exchanged as well (found by the list they iterate)
     xv = [lp[1] for lp in first if lp[2] == ("a", CAR, "xcoords")]
@@ -160,9 +175,8 @@ def r3(ctx: Ctx) -> None:
     roles = _roles(c)
     ctx.require(all(k in roles for k in ("north", "south", "east", "west")), "enforce_bb: direction selectors not identified")
     N, S_, E, W = roles["north"], roles["south"], roles["east"], roles["west"]
-    att = [st for st in c if st[0] == "if" and contains(st[2], ("a", SM, "heuleencoding"))]
-    ctx.require(len(att) == 1, "enforce_bb: trunk attachment block not found")
-    body = att[0][2]
+    body = _regions(c)[1]
+    ctx.require(bool(body), "enforce_bb: trunk attachment block not found")
     loops = [st for st in body if st[0] == "for" and st[2] == ("a", CAR, "blocks")]
     ctx.require(len(loops) == 1, "enforce_bb: loop over the cells of the attachment not found")
     lp = loops[0]
